@@ -34,6 +34,8 @@ type Run struct {
 	States, Transitions, Traces int64
 }
 
+var outDir string
+
 // NewRun creates a run; tier is "quick" or "thorough".
 func NewRun(property, tier string) *Run {
 	seed, _ := strconv.Atoi(os.Getenv("VERIF_SEED"))
@@ -41,6 +43,7 @@ func NewRun(property, tier string) *Run {
 	if dir == "" {
 		dir = "/verif"
 	}
+	outDir = os.Getenv("VERIF_OUT") // scratch output directory for evidence/replays when evaluating seeded changes
 	r := &Run{Property: property, Tier: tier, Level: "exploration", Seed: seed, VerifDir: dir, Start: time.Now(), extra: map[string]any{}}
 	budget := 25 * time.Minute
 	if tier == "thorough" {
@@ -168,7 +171,7 @@ func (r *Run) Finish() int {
 	sort.Strings(sigs)
 	nViol := 0
 	nKnown := 0
-	replayDir := filepath.Join(r.VerifDir, "replays", r.Property)
+	replayDir := filepath.Join(r.outBase(), "replays", r.Property)
 	var vlist []map[string]any
 	for _, sig := range sigs {
 		v := all[sig]
@@ -228,8 +231,8 @@ func (r *Run) Finish() int {
 		"violations":  nViol,
 	}
 	b, _ := json.MarshalIndent(ev, "", " ")
-	os.MkdirAll(filepath.Join(r.VerifDir, "evidence"), 0o755)
-	if err := os.WriteFile(filepath.Join(r.VerifDir, "evidence", r.Property+".json"), b, 0o644); err != nil {
+	os.MkdirAll(filepath.Join(r.outBase(), "evidence"), 0o755)
+	if err := os.WriteFile(filepath.Join(r.outBase(), "evidence", r.Property+".json"), b, 0o644); err != nil {
 		fmt.Fprintf(os.Stderr, "INTERNAL: cannot write evidence: %v\n", err)
 		return 2
 	}
@@ -247,4 +250,11 @@ func firstLines(s string, n int) string {
 		lines = append(lines[:n], "...")
 	}
 	return strings.Join(lines, "\n             ")
+}
+
+func (r *Run) outBase() string {
+	if outDir != "" {
+		return outDir
+	}
+	return r.VerifDir
 }
